@@ -461,6 +461,9 @@ ALLOC_SINKS = {"alloc::vec::from_elem": 1, "alloc::vec::Vec::with_capacity": 0, 
 CHECKED = ("checked_", "saturating_", "wrapping_", "overflowing_")
 
 
+REQUEST_MODE = {"on": False}
+
+
 def decoded_taint(b, param_idx=()):
     """hids of locals whose value is derived from bytes read by a decoder (flow-insensitive)"""
     tainted = set()
@@ -471,16 +474,35 @@ def decoded_taint(b, param_idx=()):
                     tainted.add(x["hid"])
     # parameters of type ByteRange are container-supplied offsets/lengths
     rng_params = set()
+    coord_params = set()
     for p in b.get("params", ()):
         for x in ir.pat_binds(p):
             if x["t"].endswith("ByteRange"):
                 rng_params.add(x["hid"])
+            if x["t"].endswith("TileCoord3"):
+                coord_params.add(x["hid"])
+    al_ = ir.Aliases(b)
+    for h, o in list(al_.m.items()):
+        if al_.canon(h) in coord_params:
+            coord_params.add(h)
+    # `let mut coord = *coord;` copies
+    for n_ in ir.walk_nodes(b["body"]):
+        if n_.get("k") == "let" and "init" in n_ and n_["pat"].get("k") == "bind" and n_["pat"]["t"].endswith("TileCoord3"):
+            i_ = ir.strip(n_["init"])
+            if i_.get("k") == "path" and i_.get("r") == "local" and i_["hid"] in coord_params:
+                coord_params.add(n_["pat"]["hid"])
 
     def is_src(n):
         if n.get("k") in ("mcall", "call"):
             q = n.get("q") or ""
             if q.startswith(DECODE_SOURCES):
                 return True
+        if REQUEST_MODE["on"]:
+            # request-derived integers: fields of a TileCoord3 parameter (coordinates come straight from the URL)
+            if n.get("k") == "field" and n.get("name") in ("x", "y", "z") and (n["e"].get("t", "") + n["e"].get("ta", "")).count("TileCoord3") and \
+                    ir.local_hid(n["e"]) in coord_params:
+                return True
+            return False
         if n.get("k") == "field" and n.get("name") in ("offset", "length") and n["e"].get("t", "").endswith("ByteRange") or \
                 (n.get("k") == "field" and n.get("name") in ("offset", "length") and (n["e"].get("ta", "") or "").endswith("ByteRange")):
             return True
